@@ -98,13 +98,21 @@ def roundtrip_cell(P, A):
                      B.timing_block(dur='10'), E('p', text=c1 if i == 1 else 'x'),
                      E('item', T('itemID', 'I%d' % i), T('itemSlug', 'is'), k=c1 if i == 0 else 'v'))
                    for i in range(2)]
+        if P.get('tree') == 'ids':
+            # a third story whose storyID and itemID are the free texts (they may be whitespace)
+            stories.append(E('story', T('storyID', c0), E('item', T('itemID', c1), T('itemSlug', 'w'))))
         ro = B.running_order(stories, lead=3, trail=1)
     mid = ro.xml.find('messageID').text
     sig = None
     for step in P['steps']:
         if step == 'none':
             continue
-        o = B.merge(ro, step_message(step, c0, c1))
+        B.Ctx.envelope_layout = P.get('msg_envelope')
+        try:
+            m = step_message(step, c0, c1)
+        finally:
+            B.Ctx.envelope_layout = None
+        o = B.merge(ro, m)
         if o.raised:
             B.note(sig='step-%s-raised-%s' % (step, type(o.exc).__name__), observed=B.conc(o.exc))
             return False
